@@ -28,16 +28,11 @@ CORPUS = os.path.join(C.VERIF, "corpus", "regressions", "C01.jsonl")
 
 
 # ------------------------------------------------------------------ known findings
-# Seven defects found by this check were repaired in /repo (see known_findings.json "fixed"); their witnesses run
-# first on every check from corpus/regressions/C01.jsonl.  OPEN findings of the audit round (2026-10-02), each with a
-# `_refuted` theorem in coq/rr/RRFindings.v and a matcher below that accepts EXACTLY its class -- and only when the
-# extracted model reproduces the implementation's observation (a change of behaviour is never swallowed):
-#   F-C01-last-week-9999      WEEKLY rule whose run reaches the WKST-week that contains 9999-12-31: ValueError from
-#                             date.fromordinal; with BYSETPOS the week's representable occurrences are lost
-#   F-C01-year1-setpos-week   WEEKLY + BYSETPOS whose first week begins before 0001-01-01: positions counted from the
-#                             start instead of from the week's representable candidates
-#   F-C01-outofrange-typeerror  a member of the rule's own time unit outside its range: TypeError instead of ValueError
-#   F-C01-bymonthday-zero     BYMONTHDAY consisting of 0 only: no restriction applied, every day is yielded
+# Eleven defects found by this check were repaired in /repo (see known_findings.json "fixed"; the four of the audit
+# round of 2026-10-02 are 55654b4 BYMONTHDAY=0, e1e7505 out-of-range members of the rule's own time unit, 8ced7a9 the
+# week containing 9999-12-31, 3426f68 the first week before 0001-01-01); their witnesses run first on every check
+# from corpus/regressions/C01.jsonl and have regression theorems in coq/rr/RRRegress.v / RRFindings.v.  There is no
+# open C01 finding, so NO difference is tolerated: MATCHERS is empty.
 def _first_diff(a, b):
     """first instant at which two increasing sequences differ (the smaller of the two members)"""
     for x, y in zip(a, b):
@@ -58,80 +53,7 @@ def _payload_first_diff(p):
     return _first_diff(impl["items"], si)
 
 
-def _model_reproduces(p):
-    impl, model = p.get("impl"), p.get("model")
-    return bool(impl) and bool(model) and model.get("status") != "F" and RC.same_obs(impl, model)
-
-
-def m_last_week_9999(p):
-    """WEEKLY; the real generator raised ValueError while iterating; the model raises at the same point; what was
-    yielded is a prefix of the specified sequence and every specified instant that is missing lies in the WKST-week
-    that contains 9999-12-31 (none missing = the plain variant: everything yielded, then ValueError)."""
-    if p.get("kind") != "spec":
-        return False
-    case, impl, spec = p.get("input") or {}, p.get("impl") or {}, p.get("spec") or {}
-    if case.get("freq") != 2 or impl.get("status") != "R" or impl.get("exn") != 1 or impl.get("phase") != 1:
-        return False
-    if not _model_reproduces(p):
-        return False
-    n = len(impl["items"])
-    if spec["items"][:n] != impl["items"]:
-        return False
-    lw = RC.last_week_start(case["wkst"]) * 86400
-    if any(x < lw for x in spec["items"][n:]):
-        return False
-    # the run must be able to reach that week at all: no UNTIL before it, and whatever was yielded ends no earlier
-    # than one interval before it
-    u = RC.until_wall(case)
-    if u is not None and u[0] * 86400 + u[1] < lw:
-        return False
-    return True
-
-
-def m_year1_setpos_week(p):
-    """WEEKLY + BYSETPOS, first WKST-week begins before 0001-01-01, the model reproduces the implementation and
-    the first difference to the specification lies in that first week (ordinals 1..6)."""
-    if p.get("kind") != "spec":
-        return False
-    case = p.get("input") or {}
-    if not RC.week_before_year1(case) or not _model_reproduces(p):
-        return False
-    fd = _payload_first_diff(p)
-    return fd is not None and fd < 8 * 86400
-
-
-OWN_UNIT = {4: ("byhour", 24), 5: ("byminute", 60), 6: ("bysecond", 60)}
-
-
-def m_outofrange_typeerror(p):
-    """sub-daily rule whose OWN unit's BY list has a member outside 0..base-1; TypeError (the None that
-    __mod_distance returns is unpacked) while iterating, reproduced by the model; nothing is lost: what was yielded
-    is the whole specified sequence."""
-    if p.get("kind") != "spec":
-        return False
-    case, impl, spec = p.get("input") or {}, p.get("impl") or {}, p.get("spec") or {}
-    if case.get("freq") not in OWN_UNIT:
-        return False
-    key, base = OWN_UNIT[case["freq"]]
-    if not any(not 0 <= v < base for v in (case.get(key) or [])):
-        return False
-    if impl.get("status") != "R" or impl.get("exn") != 3 or impl.get("phase") != 1:
-        return False
-    return _model_reproduces(p) and spec.get("items") == impl.get("items")
-
-
-def m_bymonthday_zero(p):
-    """BYMONTHDAY with no member other than 0 (the constructor drops 0 from both the positive and the negative
-    list and then applies no month-day restriction); the model reproduces the implementation."""
-    if p.get("kind") != "spec":
-        return False
-    case = p.get("input") or {}
-    v = case.get("bymonthday")
-    return bool(v) and all(x == 0 for x in v) and _model_reproduces(p)
-
-
-MATCHERS = {"last_week_9999": m_last_week_9999, "year1_setpos_week": m_year1_setpos_week,
-            "outofrange_typeerror": m_outofrange_typeerror, "bymonthday_zero": m_bymonthday_zero}
+MATCHERS = {}
 
 # ------------------------------------------------------------------ soundness thresholds (fail closed)
 # fractions of the evaluated (resp. generated) cases of a run; beyond them the run FAILS with a non-concrete
@@ -526,9 +448,8 @@ def main():
         "in_extended_domain_only(never-matching time members, BYMONTHDAY 0)": total["in_xwf"],
         "STATISTIC_in_spec_domain_and_rule_shape_covered_by_a_loop_theorem": total["in_family"],
         "STATISTIC_note": "approximation from the rule alone (RC.in_proved_family): the theorems' bounds on the "
-                          "number of passes (cut-off last week of 9999, BYEASTER years) are approximated by the "
-                          "start year; cases relocated to year 9999 (see relocated_cases) are in the count when "
-                          "their FREQ is not WEEKLY; not a coverage claim",
+                          "number of passes (BYEASTER years) are approximated by the start year; not a "
+                          "coverage claim",
         "accepted_outcomes": RC.TOLERANCE_TEXT,
         "undecided": {"generated": total["generated"], "evaluated": total["n"], "skipped": total["skipped"],
                       "stall(impl silent for %ds)" % int(RC.IMPL_TIMEOUT): total["stall"],
@@ -578,8 +499,8 @@ def main():
                 "C01_rrule_iter_correct_headline_partial": "HEADLINE (coarse_guard_all): FREQ YEARLY..DAILY, equal "
                     "fuel: spec_wf, BYWEEKNO in -53..53, no BYEASTER; everything else free (numeric BYDAY prefixes "
                     "under WEEKLY/DAILY are ignored by code and specification: C01_normalize_strip, "
-                    "C01_spec_iter_strip); WEEKLY: passes whose weeks end within 9999-12-31 and (with BYSETPOS) "
-                    "first week not before 0001-01-01",
+                    "C01_spec_iter_strip); every fuel (the WEEKLY boundary weeks containing 0001-01-01 / "
+                    "9999-12-31 are included since fixes 3426f68 / 8ced7a9)",
                 "C01_rrule_iter_correct_full_headline_partial": "full_guard = the headline guard without BYEASTER, OR with "
                     "BYEASTER and start year + all n passes inside C19's range 1583..4098 (WEEKLY: 1584..4097, the "
                     "cross-year week needs next year's Easter); nth weekdays and BYSETPOS free in both cases",
@@ -601,8 +522,7 @@ def main():
                     "DAILY (coarse_guard), FREQ YEARLY..DAILY, equal fuel: spec_wf, BYWEEKNO "
                     "in -53..53, no BYEASTER (not an RFC part); BYSETPOS, COUNT, UNTIL, interval free; YEARLY and "
                     "MONTHLY: every BYDAY (plain, nth, with or without BYMONTH); WEEKLY/DAILY: BYDAY without numeric "
-                    "prefix (as the RFC requires); WEEKLY: passes whose weeks end within 9999-12-31 and (with "
-                    "BYSETPOS) first week not before 0001-01-01",
+                    "prefix (as the RFC requires)",
                 "C01_rrule_iter_correct_yearly_all_partial": "yfam_noe: every YEARLY rule of the domain without "
                                                              "BYEASTER; every fuel",
                 "C01_rrule_strictly_increasing_partial": "coarse_guard (the guard of the summary theorem)",
@@ -625,16 +545,17 @@ def main():
             "not_proved_correspondence_only": [
                 "rrule_iter_correct (model = spec for every rule in spec_wf): proved for the families above; NOT "
                 "proved: BYEASTER outside C19's year range 1583..4098 or under sub-daily FREQ (dateutil extension, "
-                "not RFC); BYWEEKNO members beyond +-53 (not RFC); WEEKLY passes that reach the week containing "
-                "9999-12-31 and WEEKLY+BYSETPOS whose first week begins before 0001-01-01 (both REFUTED: open "
-                "findings F-C01-last-week-9999, F-C01-year1-setpos-week)",
+                "not RFC); BYWEEKNO members beyond +-53 (not RFC).  The WEEKLY boundary weeks (containing "
+                "9999-12-31 / 0001-01-01) were defects, fixed by 8ced7a9 / 3426f68; the model follows the fixed "
+                "code and the headline theorems now cover them (no WEEKLY guard left without BYEASTER)",
                 "the headline theorems compare the yielded sequence (fst) only; termination kind: never an exception "
                 "and one of COUNT/UNTIL/year-9999/limit/fuel under coarse_guard_all (C01_rrule_term_kinds_partial), a "
                 "finished run is complete (C01_rrule_complete_headline_partial); NOT stated: that some fuel ends "
                 "every run; no-exception / term kinds under the BYEASTER branch of full_guard",
                 "sub-daily FREQ: a raise happens only when the specification has nothing more, for ANY exception "
                 "class -- 'only ValueError' is not a theorem for iterate there (core lemmas: no TypeError inside "
-                "spec_wf); outside spec_wf the TypeError exists (open finding F-C01-outofrange-typeerror)",
+                "spec_wf); outside spec_wf the TypeError existed (finding F-C01-outofrange-typeerror, fixed by e1e7505: "
+                "such members are now skipped by __construct_byset and the empty set raises ValueError)",
                 "whole-second resolution and the start's tzinfo are true BY CONSTRUCTION of the model's instant type "
                 "(ordinal, second of day; tzinfo opaque): checked on every yielded value, not proved",
                 "tie model = code: rrule.__init__, __construct_byset, __mod_distance and all of _iterinfo are "
@@ -644,11 +565,12 @@ def main():
                 "init_state are PINNED AS TEXT against a template (fail closed on edits, semantics by hand model + "
                 "differential run)"]},
         "refuted_theorems": [t for t in props["theorems"] if "refuted" in t],
-        "open_findings": {"F-C01-last-week-9999": "matcher last_week_9999", "F-C01-year1-setpos-week": "matcher "
-                          "year1_setpos_week", "F-C01-outofrange-typeerror": "matcher outofrange_typeerror",
-                          "F-C01-bymonthday-zero": "matcher bymonthday_zero",
-                          "rule": "each matcher accepts exactly its class AND requires that the extracted model "
-                                  "reproduces the implementation's observation; proposed patches in notes/rr.md"},
+        "open_findings": {},
+        "fixed_findings_of_the_audit_round": {
+            "F-C01-last-week-9999": "8ced7a9", "F-C01-year1-setpos-week": "3426f68",
+            "F-C01-outofrange-typeerror": "e1e7505", "F-C01-bymonthday-zero": "55654b4",
+            "rule": "no matcher: any recurrence is a violation; regression theorems coq/rr/RRFindings.v, witnesses "
+                    "in corpus/regressions/C01.jsonl"},
         "differential_only": ["BYEASTER outside C19's year range 1583..4098 or with sub-daily FREQ",
                               "start in a DST zone with a UTC UNTIL: compared through the naive twin of the rule "
                               "(model on the wall clock, cut at the UTC UNTIL by aware comparison), not modelled",
